@@ -368,6 +368,9 @@ func (ex *Exec) callBuiltin(fr *Frame, b *ssa.Builtin, args []Value, call *ssa.C
 	case "len":
 		switch x := args[0].(type) {
 		case Slice:
+			if x.SymLen != nil {
+				return x.SymLen
+			}
 			return mkInt(int64(len(x.A)))
 		case string:
 			return mkInt(int64(len(x)))
@@ -399,6 +402,7 @@ func (ex *Exec) callBuiltin(fr *Frame, b *ssa.Builtin, args []Value, call *ssa.C
 		}
 	case "append":
 		dst := args[0].(Slice)
+		dst.mustConcrete("append")
 		var src []Value
 		switch s := args[1].(type) {
 		case Slice:
@@ -429,6 +433,10 @@ func (ex *Exec) callBuiltin(fr *Frame, b *ssa.Builtin, args []Value, call *ssa.C
 		return Slice{A: out}
 	case "copy":
 		dst := args[0].(Slice)
+		dst.mustConcrete("copy")
+		if sl, ok := args[1].(Slice); ok {
+			sl.mustConcrete("copy")
+		}
 		var src []Value
 		switch s := args[1].(type) {
 		case Slice:
